@@ -1125,7 +1125,17 @@ def _worker(job):
     for i in range(n_random):
         gname, feats = groups[(i + shard) % len(groups)]
         rules = G.gen_grammar(rng, feats)
+        # a third of the grammars are printed with the fewest parentheses the syntax allows (&POP rather than &(POP)): code that
+        # looks at the class of an operand sees another tree
         gtext = G.show_grammar(rules)
+        if i % 3 == 2:
+            gmin = G.show_grammar_min(rules)
+            try:
+                P.make_parser(gmin, None)
+                gtext = gmin
+            except Exception:  # noqa: BLE001
+                # whether the harness's own minimal printer wrote valid syntax is not the library's problem: fall back, count
+                out["stats"]["min_printer_rejected"] += 1
         passes = choose_passes(rng, i)
         cases = []
         for start in list(rules)[:3]:
@@ -1286,7 +1296,23 @@ def _worker(job):
                 out["timeouts"].append({"group": "rule-graph", "grammar": gtext, "passes": list(PASS_NAMES)})
             finally:
                 signal.alarm(0)
-    if prop in ("C02", "C16", "C04") or (tier == "thorough" and prop == "C01"):
+    if prop in ("C02", "C03"):
+        # range x literal-on-the-boundary grid (sharded) x every input over the characters involved up to length 3
+        nshb = do_bundled[1] if do_bundled else NCPU
+        for j_, rules in enumerate(G.squash_boundary_grid()):
+            if j_ % nshb != shard % nshb:
+                continue
+            gtext = G.show_grammar(rules)
+            chars_ = sorted({c for c in gtext if c.isalnum() or c in "`:/{"} - set("rEOIANYd")) + ["d"]
+            signal.alarm(120)
+            try:
+                eval_grammar(prop, rng, "squash-boundary", gtext, rules, list(PASS_NAMES), [("r", t, 0) for t in small_inputs("".join(chars_[:6]), 3)], out)
+                out["stats"]["squash_boundary_grammars"] += 1
+            except Timeout:
+                out["timeouts"].append({"group": "squash-boundary", "grammar": gtext, "passes": list(PASS_NAMES)})
+            finally:
+                signal.alarm(0)
+    if prop in ("C02", "C16", "C04", "C03") or (tier == "thorough" and prop == "C01"):
         # the shapes the skip and squash passes rewrite x every short input over a small alphabet
         for kind in ("skip", "squash"):
             inputs3 = small_inputs("abc", 6 if tier == "thorough" else 5) if kind == "skip" else \
